@@ -15,8 +15,8 @@ func init() {
 			"big-endian read of (m+1)/2 bytes right after the integer part, divided by 10 for odd m; (R3) TIMESTAMP text is rendered from time.Unix(v,0) without UTC()/In(): the process's local zone; the zero " +
 			"timestamp is the literal 0000-00-00 00:00:00; (R4) canonical value terms of the fixed-layout cases equal the documented packed layouts: DATE (day = bits 0-4, month = bits 5-8, year = bits 9+ of a " +
 			"3-byte little-endian integer, '%04d-%02d-%02d'), DATETIME (decimal-packed YYYYMMDDhhmmss in 8 little-endian bytes), DATETIME2 (5 big-endian bytes minus 0x8000000000: 17 bits hms, 5 bits day, " +
-			"month/year = ym mod/div 13), TIMESTAMP (4 little-endian bytes) and TIMESTAMP2 (4 big-endian bytes) seconds. " +
-			"Not decided: TIME/TIME2 sign and hour arithmetic (reading found that the pre-5.6.4 TIME case mis-renders negative values; a sound static rule for it needs a relational numeric domain, see DESIGN C12), rendering of out-of-range fields.",
+			"month/year = ym mod/div 13), TIMESTAMP (4 little-endian bytes) and TIMESTAMP2 (4 big-endian bytes) seconds, TIME2 (sign string, then hour = bits 12-21, minute = bits 6-11, second = bits 0-5 of 3 big-endian bytes minus 0x800000, each with the minimum-width verb %02d). " +
+			"Not decided: TIME (pre-5.6.4) arithmetic and TIME2's sign/borrow handling (reading found that the pre-5.6.4 TIME case mis-renders negative values; a sound static rule for it needs a relational numeric domain, see DESIGN C12), rendering of out-of-range fields.",
 		Rule:        "instances = (type, fsp) specialisations x {reachable fraction formats, fraction argument term, layout value terms}",
 		Trusted:     append([]string{"fmt verb semantics, time.Unix / Time.Date / Time.Clock", "H-sccp / H-term"}, commonTrusted...),
 		Assumptions: []string{"canonical terms are compared syntactically after normalisation; an algebraically different but equivalent extraction needs a table update"},
@@ -41,6 +41,9 @@ func init() {
 		Variant{ID: "c12-r4-datetime2-swap", Prop: "C12", File: "replication/binlog_event_rbr.go",
 			Old: "\t\tmonth := ym % 13\n\t\tyear := ym / 13\n\n\t\tsecond := hms % (1 << 6)", New: "\t\tmonth := ym % 12\n\t\tyear := ym / 12\n\n\t\tsecond := hms % (1 << 6)",
 			Expect: "C12-R4 value@TypeDateTime2"},
+		Variant{ID: "c12-r4-time2-hour-bits", Prop: "C12", File: "replication/binlog_event_rbr.go",
+			Old: "\t\thour := (hms >> 12) % (1 << 10)\n\t\tminute := (hms >> 6) % (1 << 6)\n\t\tsecond := hms % (1 << 6)\n\t\treturn []byte(fmt.Sprintf(\"%v%02d", New: "\t\thour := (hms >> 12) % (1 << 5)\n\t\tminute := (hms >> 6) % (1 << 6)\n\t\tsecond := hms % (1 << 6)\n\t\treturn []byte(fmt.Sprintf(\"%v%02d",
+			Expect: "C12-R4 value@TypeTime2"},
 		Variant{ID: "c12-r4-timestamp2-endian", Prop: "C12", File: "replication/binlog_event_rbr.go",
 			Old: "\tcase TypeTimestamp2:\n\t\tsecond := binary.BigEndian.Uint32(data[pos : pos+4])", New: "\tcase TypeTimestamp2:\n\t\tsecond := binary.LittleEndian.Uint32(data[pos : pos+4])",
 			Expect: "C12-R4 value@TypeTimestamp2"},
@@ -185,6 +188,7 @@ func runC12(a *A) {
 		c12TimestampFields(a, pt)
 	}
 	// R4: layouts
+	c12Time2Layout(a, cd, byName["TypeTime2"])
 	v := "LE(3,data[pos])"
 	dt := "LE(8,data[pos])"
 	d2 := "BE(5,data[pos])-549755813888"
@@ -196,6 +200,55 @@ func runC12(a *A) {
 		{"TypeTimestamp2", []int64{0}, "C12-R4", map[string]string{"": "buf{<-printTimestamp(BE(4,data[pos])): }"}, "TIMESTAMP2: seconds in 4 big-endian bytes"},
 		{"TypeDateTime2", []int64{0}, "C12-R4", map[string]string{"": `buf{<-new: printf("%04d-%02d-%02d %02d:%02d:%02d",(/ (>> (>> ` + d2 + ` 17) 5) 13),(% (>> (>> ` + d2 + ` 17) 5) 13),(% (>> ` + d2 + ` 17) 32),(>> (% ` + d2 + ` 131072) 12),(% (>> (% ` + d2 + ` 131072) 6) 64),(% (% ` + d2 + ` 131072) 64))}`}, "DATETIME2: 5 big-endian bytes minus 0x8000000000; hms = low 17 bits, day = next 5 bits, ym above (year = ym/13, month = ym%13)"},
 	})
+}
+
+// abstractPhis replaces every balanced phi{...} by the placeholder Φ.
+func abstractPhis(s string) string {
+	var out strings.Builder
+	for i := 0; i < len(s); {
+		if strings.HasPrefix(s[i:], "phi{") {
+			depth := 0
+			j := i + 3
+			for ; j < len(s); j++ {
+				if s[j] == '{' {
+					depth++
+				} else if s[j] == '}' {
+					depth--
+					if depth == 0 {
+						break
+					}
+				}
+			}
+			out.WriteString("Φ")
+			i = j + 1
+			continue
+		}
+		out.WriteByte(s[i])
+		i++
+	}
+	return out.String()
+}
+
+// c12Time2Layout: TIME2 = sign, then hour (10 bits), minute (6 bits), second (6 bits) of the 3 big-endian bytes minus 0x800000,
+// each printed with %02d (a minimum width, so hours up to 838 keep all their digits), then the fraction string.
+func c12Time2Layout(a *A, cd *codec, typ int64) {
+	w := a.W
+	for m := int64(0); m <= 6; m++ {
+		rv := cd.specVal(spec{typ, m})
+		a.Evals++
+		key := fmt.Sprintf("value@TypeTime2[fsp=%d]", m)
+		rets := successReturns(rv, 2)
+		if len(rets) != 1 {
+			a.undecided("C12-R4", key, w.pos(cd.valFn.Pos()), "%d success returns", len(rets))
+			continue
+		}
+		full := valueTerm(cd, rv, rets[0].Results[0])
+		got := abstractPhis(full)
+		want := `bytes(Sprintf("%v%02d:%02d:%02d%v",Φ,(% (>> Φ 12) 1024),(% (>> Φ 6) 64),(% Φ 64),`
+		okSrc := strings.Contains(full, "BE(3,data[pos])-8388608")
+		a.check(strings.HasPrefix(got, want) && okSrc, "C12-R4", key, w.posOf(rets[0]), "sign, hour = bits 12-21, minute = bits 6-11, second = bits 0-5 of BE(3)-0x800000, each %02d, then the fraction",
+			fmt.Sprintf("TIME2 is rendered as %s; the documented layout is sign + %%02d:%%02d:%%02d of (hms>>12)%%1024, (hms>>6)%%64, hms%%64 with hms = BE(3,data[pos])-0x800000 (hours up to 838 need a minimum-width verb)", got))
+	}
 }
 
 // c12TimestampFields: the six printed fields are year, int(month), day from Date() and hour, minute, second from Clock() of one time value.
